@@ -7,11 +7,12 @@ import math
 from . import c02 as C02
 from . import c02_util as U
 from . import c11_ext as X
+from . import c11_scope as S
 from .common import add_failure, bump, new_outcome, rat, unrat
 
 PROP = "C11"
-PROPS_FILES = ["CogentModel/Props/C11.lean", "CogentModel/Props/C11b.lean"]
-LEAN_TARGETS = ["CogentModel.Props.C11", "CogentModel.Props.C11b"]
+PROPS_FILES = ["CogentModel/Props/C11.lean", "CogentModel/Props/C11b.lean", "CogentModel/Props/C11Scope.lean"]
+LEAN_TARGETS = ["CogentModel.Props.C11", "CogentModel.Props.C11b", "CogentModel.Props.C11Scope"]
 DRIVER = "drv_c11"
 TRUSTED = [
     "the pruning model lean/CogentModel/Model/Prune.lean (shared with C02), tied by exact-rational shadow evaluation on "
@@ -651,6 +652,11 @@ def _hypotheses(ctx, specs, rng, out, limit):
                     out["nontrivial"].add((spec["model"], spec["seed"], "hyp-split", e, b))
 
 
+def generate(ctx):
+    """wave 3: re-translate get_edge_names / _process_scope_info (translator/c11_scope2lean.py -> Gen/C11Scope.lean)"""
+    return S.generate(ctx)
+
+
 def correspondence(ctx):
     out = new_outcome(
         "the shared pruning model vs the implementation (C02's shadow, leaf arrays from the implementation) on original "
@@ -662,6 +668,10 @@ def correspondence(ctx):
         "rooted_with_tip (every tip) / unrooted() on random trees with polytomies, unary nodes and unary roots (shape up to sibling order, "
         "edge under every node, lengths incl. the merged one); the modelled calcQ vs the real StationaryQ.calcQ (the method with arbitrary "
         "inputs, and every nucleotide + one protein model, where the symmetry of the exchangeabilities is measured); "
+        "the TRANSLATED get_edge_names / _process_scope_info (Gen/C11Scope.lean, driver `scope`, tree primitives answered from tables "
+        "filled by cogent3's own primitives) vs the real functions on random trees: tip_names of tips / internal nodes / missing names / "
+        "1-3 names, outgroup a tip / internal node / missing / none, clade and stem given or defaulted, edge= and edges= mixed in; "
+        "edge lists compared in order, refusals by kind; "
         "non-trivial = >= 2 unique columns / hypothesis met on a reversible problem"
     )
     rng = ctx.subrng("corr")
@@ -678,6 +688,7 @@ def correspondence(ctx):
     C02.evaluate(ctx, specs, None, "impl", 0, out, "corr")
     X.shape_tie(ctx, rng, out, 150 if ctx.thorough else 12)
     X.calcq_tie(ctx, rng, out, 400 if ctx.thorough else 40)
+    S.scope_tie(ctx, rng, out, 300 if ctx.thorough else 30)
     _hypotheses(ctx, specs, rng, out, 200 if ctx.thorough else 8)
     return out
 
